@@ -158,6 +158,10 @@ func (fr *frame) visitInstr(instr ssa.Instruction) continuation {
 	case *ssa.Send:
 		panic(unsupported{"channel send"})
 	case *ssa.Store:
+		if sr, isSym := fr.get(instr.Addr).(*symRef); isSym {
+			sr.store(fr.get(instr.Val))
+			break
+		}
 		addr, ok := fr.get(instr.Addr).(*value)
 		if !ok {
 			panic(unsupported{fmt.Sprintf("store through %T", fr.get(instr.Addr))})
@@ -216,7 +220,7 @@ func (fr *frame) visitInstr(instr ssa.Instruction) continuation {
 		x := fr.get(instr.X)
 		switch x := x.(type) {
 		case *Map:
-			fr.env[instr] = x.iter()
+			fr.env[instr] = x.iterOrd(p.revMaps)
 		case string, *SymStr:
 			fr.env[instr] = &stringIter{s: x}
 		default:
@@ -245,6 +249,10 @@ func (fr *frame) visitInstr(instr ssa.Instruction) continuation {
 		sg := isSigned(instr.Index.Type())
 		switch x := x.(type) {
 		case []value:
+			if r := p.symElemRef(idx, x, deref(instr.Type())); r != nil {
+				fr.env[instr] = r
+				break
+			}
 			i := p.indexCheck(idx, sg, len(x), "slice index")
 			fr.env[instr] = &x[i]
 		case *value:
@@ -252,6 +260,10 @@ func (fr *frame) visitInstr(instr ssa.Instruction) continuation {
 				panic(runtimePanic("invalid memory address or nil pointer dereference"))
 			}
 			a := (*x).(array)
+			if r := p.symElemRef(idx, []value(a), deref(instr.Type())); r != nil {
+				fr.env[instr] = r
+				break
+			}
 			i := p.indexCheck(idx, sg, len(a), "array index")
 			fr.env[instr] = &a[i]
 		default:
@@ -332,7 +344,7 @@ func (fr *frame) visitInstr(instr ssa.Instruction) continuation {
 
 // symStringIndex returns s[idx] for a symbolic idx as an ite chain (panics on out of range).
 func (p *Path) symStringIndex(bs []*Term, idx *Term) value {
-	inr := Cmp(OULt, idx, BV(idx.sort.W, uint64(len(bs))))
+	inr := inRangeTerm(idx, len(bs))
 	if !p.decide(inr, "string index in range") {
 		panic(runtimePanic("index out of range (string)"))
 	}
